@@ -17,6 +17,8 @@ NAMES = ["DomainS", "ComplexS", "StrandS", "MacrostateS", "ReactionS", "DomA", "
          "DomFailA", "CplxA", "CplxAA", "CplxB", "CplxFailB", "CplxFailA", "StrandA", "StrandFailA",
          "MacA", "MacAA", "MacFailA", "RxnA", "RxnFailA", "RxnFailB", "DomC", "DomD"]
 ALL = list(range(len(NAMES)))
+KIND_OF = {c: k for k, cs in (("D", (D, DA, DAA, DB, DFB, DFA, DC, DD)), ("C", (C, CA, CAA, CB, CFB, CFA)), ("S", (S, SA, SFA)),
+                              ("M", (M, MA, MAA, MFA)), ("R", (R, RA, RFA, RFB))) for c in cs}
 
 _ct = None
 
@@ -372,9 +374,22 @@ def snippet(ops, nslots, variant=0):
 
     def tryit(stmt):
         return f"try: {stmt}\nexcept Exception as e: print(type(e).__name__, getattr(e, 'existing', None))"
+    # the container handed over for members / reactants / products follows the position of the construction in the
+    # history exactly as in impl/registry.py (Machine.construct): tuple, list, deque in turn
+    ncalls = 0
+
+    def box(elems):
+        inner = ", ".join(f"s[{e}]" for e in elems)
+        if ncalls % 3 == 0:
+            return "(" + inner + ("," if len(elems) == 1 else "") + ")"
+        return "[" + inner + "]" if ncalls % 3 == 1 else "deque([" + inner + "])"
+    if any(o[0] in ("macro", "rxn") for o in ops):
+        lines.insert(3, "from collections import deque")
     for o in ops:
         t = o[0]
         cls = clsname(o[2]) if t in ("dom", "cplx", "strand", "macro", "rxn") else ""
+        if cls and KIND_OF.get(o[2]) == {"dom": "D", "cplx": "C", "strand": "S", "macro": "M", "rxn": "R"}[t]:
+            ncalls += 1
         if t == "dom":
             kw = ", ".join(f"{k}={v!r}" for k, v in zip(("name", "length", "prefix", "dtype"), o[3:]) if v is not None)
             lines.append(tryit(f"s[{o[1]}] = {cls}({kw})"))
@@ -388,14 +403,14 @@ def snippet(ops, nslots, variant=0):
                 kw = "".join(f", {k}={v!r}" for k, v in zip(("name", "prefix"), o[4:]) if v is not None)
                 lines.append(tryit(f"s[{o[1]}] = {cls}({sq}{kw})"))
         elif t == "macro":
-            ms = "" if o[3] is None else "[" + ", ".join(f"s[{e}]" for e in o[3]) + "]"
+            ms = "" if o[3] is None else box(o[3])
             kw = "" if o[4] is None else (", " if ms else "") + f"name={o[4]!r}"
             lines.append(tryit(f"s[{o[1]}] = {cls}({ms}{kw})"))
         elif t == "rxn":
             if o[3] is None:
                 a = "None, None"
             else:
-                a = ", ".join("[" + ", ".join(f"s[{e}]" for e in l) + "]" for l in o[3])
+                a = ", ".join(box(l) for l in o[3])
             kw = "" if o[5] is None else f", name={o[5]!r}"
             lines.append(tryit(f"s[{o[1]}] = {cls}({a}, {o[4]!r}{kw})"))
         elif t == "inv":
